@@ -26,6 +26,9 @@ IntN(n) == [t |-> "int", v |-> n]
 NumN(u) == [t |-> "num", v |-> u]
 Addr(a, b) == [t |-> "addr", v |-> <<a, b>>, sp |-> "canonical"]
 AddrTight(a, b) == [t |-> "addr", v |-> <<a, b>>, sp |-> "tight"]
+\* other spellings that evaluate to the same address: "(a,b)", "(+a, b)", "(a, b,)", "a, b"
+Spellings == <<"tight", "plus", "trailing", "bare">>
+AddrSpelled(a, b, i) == [t |-> "addr", v |-> <<a, b>>, sp |-> Spellings[i]]
 List(s) == [t |-> "list", v |-> s]
 Map(ks, vs) == [t |-> "map", k |-> ks, v |-> vs]
 Null == [t |-> "null"]
@@ -296,7 +299,8 @@ NPos(r, d) ==
       [] r = "section_unknown" -> 1
       [] r = "section_mistyped" -> Len(RequiredSections) + 1
       [] r \in {"subnets_empty", "os_empty", "services_empty", "processes_empty", "os_duplicate",
-                "services_duplicate", "processes_duplicate", "topology_row_missing", "sensitive_duplicate"} -> 1
+                "services_duplicate", "processes_duplicate", "topology_row_missing"} -> 1
+      [] r = "sensitive_duplicate" -> Len(Spellings)
       [] r = "subnet_nonpositive" -> 2 * Len(Sizes(d))
       [] r \in {"topology_row_short", "topology_bad_entry"} -> NSubD(d)
       [] r \in {"sensitive_bad_subnet", "sensitive_bad_host", "sensitive_nonpositive"} -> NSens(d)
@@ -309,9 +313,10 @@ NPos(r, d) ==
       [] r = "scan_cost_negative" -> 4
       [] r \in {"host_missing", "host_unknown_service", "host_duplicate_service", "host_unknown_process",
                 "host_duplicate_process", "host_unknown_os", "host_firewall_not_map",
-                "host_firewall_bad_address", "host_firewall_unknown_service", "host_value_nonnumeric"} -> NHC(d)
+                "host_firewall_bad_address", "host_firewall_unknown_service"} -> NHC(d)
+      [] r = "host_value_nonnumeric" -> 4 * NHC(d)
       [] r = "host_superfluous" -> 1
-      [] r = "host_value_contradicts_sensitive" -> Cardinality(SensHostIdx(d))
+      [] r = "host_value_contradicts_sensitive" -> 3 * Cardinality(SensHostIdx(d))
       [] r \in {"firewall_rule_missing", "firewall_rule_not_list", "firewall_rule_unknown_service"} -> NFW(d)
       [] r = "firewall_rule_duplicate_service" -> Cardinality(NonEmptyRules(d))
       [] r \in {"step_limit_zero", "step_limit_negative"} -> 1
@@ -330,8 +335,10 @@ BreakAct(d, sec, what, r, p) ==
                 [] r = kind \o "_bad_access" -> SetKey(e, "access", IF p % 2 = 0 THEN IntN(3) ELSE StrN("admin"))
     IN SetKey(d, sec, SetAt(m, i, e2))
 
-BreakHost(d, r, p) ==
+BreakHost(d, r, p0) ==
     LET m == Get(d, "host_configurations")
+        p == IF r = "host_value_nonnumeric" THEN ((p0 - 1) \div 4) + 1 ELSE p0
+        variant == (p0 - 1) % 4
         c == m.v[p]
         srv == Get(c, "services")
         prc == Get(c, "processes")
@@ -347,7 +354,9 @@ BreakHost(d, r, p) ==
                      SetKey(c, "firewall", Map(<<Addr(NSubD(d) + 3, 0)>>, <<List(<<StrN(SrvD(d)[1])>>)>>))
                 [] r = "host_firewall_unknown_service" ->
                      SetKey(c, "firewall", Map(<<anyAddr>>, <<List(<<StrN("zz_unknown")>>)>>))
-                [] r = "host_value_nonnumeric" -> SetKey(c, "value", StrN("high"))
+                [] r = "host_value_nonnumeric" ->
+                     SetKey(c, "value", CASE variant = 0 -> StrN("high") [] variant = 1 -> Null
+                                          [] variant = 2 -> StrN("") [] OTHER -> List(<<>>))
     IN SetKey(d, "host_configurations", SetAt(m, p, c2))
 
 Break(r, p, d) ==
@@ -383,7 +392,7 @@ Break(r, p, d) ==
            SetKey(d, "sensitive_hosts", [m EXCEPT !.k[p] = Addr(m.k[p].v[1], SizeOf(d, m.k[p].v[1]))])
       [] r = "sensitive_duplicate" ->
            LET m == Get(d, "sensitive_hosts") IN
-           SetKey(d, "sensitive_hosts", AddEntry(m, AddrTight(m.k[1].v[1], m.k[1].v[2]), m.v[1]))
+           SetKey(d, "sensitive_hosts", AddEntry(m, AddrSpelled(m.k[1].v[1], m.k[1].v[2], p), m.v[1]))
       [] r = "sensitive_nonpositive" ->
            LET m == Get(d, "sensitive_hosts") IN
            SetKey(d, "sensitive_hosts", SetAt(m, p, IF p % 2 = 0 THEN IntN(0) ELSE NumN(-2500000)))
@@ -400,9 +409,10 @@ Break(r, p, d) ==
            SetKey(d, "host_configurations", AddEntry(m, Addr(1, SizeOf(d, 1)), m.v[1]))
       [] r = "host_value_contradicts_sensitive" ->
            LET m == Get(d, "host_configurations")
-               i == NthOf(SensHostIdx(d), p)
-               sv == Micro(GetAddr(Get(d, "sensitive_hosts"), m.k[i].v)) IN
-           SetKey(d, "host_configurations", SetAt(m, i, SetKey(m.v[i], "value", NumN(sv + 1500000))))
+               i == NthOf(SensHostIdx(d), ((p - 1) \div 3) + 1)
+               sv == Micro(GetAddr(Get(d, "sensitive_hosts"), m.k[i].v))
+               bad == CASE p % 3 = 1 -> NumN(sv + 1500000) [] p % 3 = 2 -> IntN(0) [] OTHER -> NumN(0) IN
+           SetKey(d, "host_configurations", SetAt(m, i, SetKey(m.v[i], "value", bad)))
       [] r \in {"host_unknown_service", "host_duplicate_service", "host_unknown_process", "host_duplicate_process",
                 "host_unknown_os", "host_firewall_not_map", "host_firewall_bad_address",
                 "host_firewall_unknown_service", "host_value_nonnumeric"} -> BreakHost(d, r, p)
